@@ -173,7 +173,12 @@ func verifyFunc(prog *Program, fc *FuncContract) (res *FuncResult) {
 		}
 		return Val{}, false
 	}
-	e.assertAxioms(fc.Pkg, nil)
+	// axioms of every loaded package under contract (a callee's well-formedness assumptions travel with it)
+	for _, p := range sortedKeys(prog.contracts) {
+		if prog.pkgs[p] != nil {
+			e.assertAxioms(p, nil)
+		}
+	}
 	for _, r := range fc.Requires {
 		e.assume(st, e.evContract(st, r.Expr, env))
 	}
